@@ -262,6 +262,13 @@ def _deep_abstract(v, depth=0) -> bool:
     return False
 
 
+def _hashable_in(idx, d) -> bool:
+    try:
+        return idx in d
+    except TypeError:
+        return False
+
+
 class Hooks:
     """Override in rules.  Every hook may return NOT_HANDLED."""
 
@@ -1030,7 +1037,7 @@ class Interp:
             except (IndexError, KeyError, TypeError, ValueError) as e:
                 raise PathRaise(type(e).__name__, node)
         if isinstance(obj, dict):
-            if idx is TOP or _is_abstract(idx):
+            if idx is TOP or _contains_top(idx) or (_deep_abstract(idx) and not _hashable_in(idx, obj)):
                 vals = list(obj.values())
                 if not vals:
                     raise PathRaise('KeyError', node)
